@@ -2495,6 +2495,8 @@ def _eval_prox(cell, res):
         name, facet = "ProjectNonnegative", "d=%d" % d
     elif op == "box":
         la, ua, lo, up = _box(par, d)
+        la_s, ua_s = la, ua
+        twin = lambda x: ProjectBox(x, la_s, ua_s)
         if parr:        # scalar bounds handed over as 0-d arrays
             la, ua = (None if la is None else np.array(la, dtype=float)), (None if ua is None else np.array(ua, dtype=float))
         pargs = {"lower": la, "upper": ua}
@@ -2504,6 +2506,7 @@ def _eval_prox(cell, res):
         gam = float(par)
         garg = np.full(d, gam) if parr else gam        # threshold as a vector (one entry per coordinate, all equal)
         pargs = {"gamma": garg}
+        twin = lambda x: ProximalL1(x, gam)
         fn = lambda x: ProximalL1(x, garg)
         name, facet = "ProximalL1", "gamma%s0" % (">" if gam > 0 else "=")
     if parr:
@@ -2514,11 +2517,23 @@ def _eval_prox(cell, res):
         Zf = Z[feas]
         res.nontrivial = bool(len(Zf) > 0 and len(Zf) < len(Z))
     failed = set()
+    pending = []
+    twin_bad = False        # parameter-as-array cells: does the python-scalar twin deviate from the closed form as well?
 
     def fail(kind, msg, **kw):
         if kind not in failed:
             failed.add(kind)
+            pending.append((kind, msg, kw))
+
+    def flush():
+        # a parameter-as-array cell blames the representation only when the scalar twin is exact on the whole lattice
+        # (otherwise the scalar cell reports the defect); an altered parameter object is always reported
+        for (kind, msg, kw) in pending:
+            if parr and twin_bad and kind != "argument-altered":
+                res.count("scalar-twin-also-fails")
+                continue
             res.fail("C16|%s|%s|%s" % (name, kind, facet), msg, **kw)
+        del pending[:]
 
     nchanged = 0
     for x in Z:
@@ -2527,6 +2542,11 @@ def _eval_prox(cell, res):
         try:
             p = np.asarray(fn(xin), float)
         except Exception as e:
+            if parr and op == "l1":     # documented: 'gamma : scale parameter' - a vector of thresholds may be refused
+                res.refused += 1
+                res.outcomes.add("gamma-array-refused:" + type(e).__name__)
+                res.nontrivial = False
+                break
             fail("raises", "raised %r at x=%s" % (e, x.tolist()))
             break
         if not np.array_equal(xin, x):
@@ -2540,6 +2560,12 @@ def _eval_prox(cell, res):
             ref = _ref_clip(x, lo, up)
         if not close(p, ref, 1e-12):
             fail("closed-form", "P(%s) = %s, coordinate-wise closed form gives %s" % (x.tolist(), p.tolist(), ref.tolist()), x=x)
+        if parr and not twin_bad:
+            try:
+                ps = np.asarray(twin(x.copy()), float)
+                twin_bad = ps.shape != x.shape or not close(ps, ref, 1e-12)
+            except Exception:
+                twin_bad = True
         nchanged += int(not np.array_equal(p, x))
         # variational characterisation against every lattice competitor
         if op == "l1":
@@ -2577,6 +2603,7 @@ def _eval_prox(cell, res):
     except Exception as e:
         res.refused += 1
         res.outcomes.add("list-refused:" + type(e).__name__)
+    flush()
     res.state("%s:%s:d=%d%s" % (name, par, d, ":par=array" if parr else ""))
     res.outcomes.add("%s:%s:d=%d:moved=%d/%d" % (name, par, d, nchanged, len(Z)))
     res.sample = {"lattice_axis": ax, "inputs": len(Z), "moved": nchanged}
